@@ -347,7 +347,8 @@ def gen_stub_config(rng, nphase=None, nel=None, temperature='const', allow_gb=Tr
         if rng.random() < 0.08:
             cons[sw_] = False
     if rng.random() < 0.2:
-        cons['minComposition'] = rng.choice([0, 1e-8])
+        # (a positive floor well inside the range the matrix composition visits: only a NEGATIVE balance value may be replaced by it)
+        cons['minComposition'] = rng.choice([0, 1e-8, round(min(cfg['x0']) * 0.1, 8), round(min(cfg['x0']) * 0.5, 8), round(min(cfg['x0']) * 0.9, 8)])
     if rng.random() < 0.15:
         cons['dtScale'] = rng.choice([1e-2, 0.1])
     cfg['constraints'] = cons
